@@ -1,4 +1,5 @@
 import AndaVerif.Proofs.HnswSearch
+import AndaVerif.Model.HnswMetric
 import AndaVerif.Proofs.HnswLoad
 import AndaVerif.Proofs.HnswReach
 import AndaVerif.Proofs.HnswWindow
@@ -122,6 +123,152 @@ example : Sound exGraph exDist 3 [(20, 3), (20, 5), (30, 4)] :=
 /-- a dangling entry point is an error after the retries, not a wrong answer -/
 example : searchF32 exGraph (99, 1) exDist 3 2 true true = .error (.notFound 99) := by rfl
 
+/-! ## edge cases and totality -/
+
+/-- `k = 0`: `search_f32` answers `Ok([])` before any other check (even for a NaN or wrong-dimension
+query); the bf16 entry point `search` checks dimension and finiteness first. -/
+theorem search_k_zero (m : NodeMap) (entry : Nat × Nat) (dist : Nat → Option Nat) (efSearch : Nat) (finite dimOk : Bool) :
+    searchF32 m entry dist 0 efSearch finite dimOk = .ok [] ∧
+    searchBf16 m entry dist 0 efSearch true true = .ok [] ∧
+    searchBf16 m entry dist 0 efSearch finite false = .error .dimension := by
+  simp [searchF32, searchBf16]
+
+/-- dimension mismatch and non-finite queries are refused, never answered (for `k > 0`) -/
+theorem search_refuses_bad_query (m : NodeMap) (entry : Nat × Nat) (dist : Nat → Option Nat) (k efSearch : Nat)
+    (hk : k ≠ 0) :
+    searchF32 m entry dist k efSearch false true = .error .invalid ∧
+    searchF32 m entry dist k efSearch false false = .error .invalid ∧
+    searchF32 m entry dist k efSearch true false = .error .dimension ∧
+    searchBf16 m entry dist k efSearch true false = .error .dimension ∧
+    searchBf16 m entry dist k efSearch false false = .error .dimension ∧
+    searchBf16 m entry dist k efSearch false true = .error .invalid := by
+  simp [searchF32, searchBf16, hk]
+
+/-- the empty index answers `Ok([])`, whatever the (stale) entry point says -/
+theorem search_empty_index (entry : Nat × Nat) (dist : Nat → Option Nat) (k efSearch : Nat) :
+    searchF32 [] entry dist k efSearch true true = .ok [] := by
+  unfold searchF32
+  split
+  · rfl
+  · simp [searchInner, searchTry]
+    cases (searchMaxAttempts - 1) <;> simp [searchTry]
+
+/-- `k > n`: never more entries than there are nodes (distinct live ids) -/
+theorem search_length_le_nodes (m : NodeMap) (entry : Nat × Nat) (dist : Nat → Option Nat) (k efSearch : Nat)
+    (finite dimOk : Bool) (res : List Ent) (h : searchF32 m entry dist k efSearch finite dimOk = .ok res) :
+    res.length ≤ m.length := by
+  have hs := search_sound m entry dist k efSearch finite dimOk res h
+  have := nodup_subset_length hs.nodup (l' := keys m) (by
+    intro x hx
+    obtain ⟨e, he, rfl⟩ := List.mem_map.mp hx
+    exact hs.live e he)
+  simpa [keys] using this
+
+/-- Totality: on a non-empty index whose entry point is live, a valid query with `k ≥ 1` whose
+distances are all computable is ANSWERED (no `NotFound`, no distance error, no exhausted fuel) with a
+NON-EMPTY sound list — the entry point itself is always a candidate.  (The oracle's `search-error`
+and `search-empty` checks, as a theorem.) -/
+theorem search_total (m : NodeMap) (entry : Nat × Nat) (dist : Nat → Option Nat) (k efSearch : Nat)
+    (hne : m ≠ []) (he : entry.1 ∈ keys m) (hd : ∀ i ∈ keys m, (dist i).isSome = true) (hk : 0 < k) :
+    ∃ res, searchF32 m entry dist k efSearch true true = .ok res ∧ res ≠ [] ∧ Sound m dist k res := by
+  obtain ⟨res, hres, hr⟩ := searchTry_total (m := m) (entry := entry) (dist := dist) k efSearch hne he hd hk
+    (searchMaxAttempts - 1)
+  have h : searchF32 m entry dist k efSearch true true = .ok res := by
+    unfold searchF32
+    have : k ≠ 0 := by omega
+    simp only [this, if_false, Bool.not_true, Bool.false_eq_true, searchInner]
+    exact hres
+  exact ⟨res, h, hr, search_sound _ _ _ _ _ _ _ _ h⟩
+
+example : ∃ res, searchF32 exGraph (1, 1) exDist 10 2 true true = .ok res ∧ res ≠ [] ∧ Sound exGraph exDist 10 res :=
+  search_total exGraph (1, 1) exDist 10 2 (by decide) (by decide) (by decide) (by decide)
+
+/-! ## every metric: the answer is ordered by the EXACT metric to the STORED (rounded) vectors -/
+
+/-- the distance keys respect metric `m` on the nodes of the graph: key order = exact order of the
+metric between `q` and the vector held for each id (decidable; the f32 kernels' agreement with it is
+the measured part) -/
+def respects (m : Metric) (q : Vec) (vec : Nat → Option Vec) (dist : Nat → Option Nat) (ids : List Nat) : Bool :=
+  ids.all (fun i => ids.all (fun j =>
+    match vec i, vec j, dist i, dist j with
+    | some vi, some vj, some di, some dj => decide (di ≤ dj) == closer m q vi vj
+    | _, _, _, _ => false))
+
+/-- For EVERY metric the crate offers: if the keys respect the metric, the answer lists at most `k`
+distinct live ids in non-decreasing order of the exact metric between the query and the vector held
+for each returned id. -/
+theorem metric_search_ordered (mt : Metric) (q : Vec) (vec : Nat → Option Vec) (m : NodeMap) (entry : Nat × Nat)
+    (dist : Nat → Option Nat) (k efSearch : Nat) (finite dimOk : Bool) (res : List Ent)
+    (hr : respects mt q vec dist (keys m) = true)
+    (h : searchF32 m entry dist k efSearch finite dimOk = .ok res) :
+    res.length ≤ k ∧ (res.map (·.2)).Nodup ∧ (∀ e ∈ res, e.2 ∈ keys m) ∧
+    res.Pairwise (fun a b => ∃ va vb, vec a.2 = some va ∧ vec b.2 = some vb ∧ closer mt q va vb = true) := by
+  have hs := search_sound m entry dist k efSearch finite dimOk res h
+  refine ⟨hs.len, hs.nodup, hs.live, ?_⟩
+  have hpair : res.Pairwise (fun a b => a ∈ res ∧ b ∈ res ∧ a.1 ≤ b.1) := by
+    have h1 : res.Pairwise (fun a b => a.1 ≤ b.1) := hs.sorted
+    rw [List.pairwise_iff_forall_sublist] at h1 ⊢
+    intro a b hab
+    have ha : a ∈ res := hab.subset (by simp)
+    have hb : b ∈ res := hab.subset (by simp)
+    exact ⟨ha, hb, h1 hab⟩
+  refine hpair.imp ?_
+  rintro a b ⟨ha, hb, hab⟩
+  have hra := List.all_eq_true.mp (List.all_eq_true.mp hr a.2 (hs.live a ha)) b.2 (hs.live b hb)
+  rw [hs.dist_eq a ha, hs.dist_eq b hb] at hra
+  cases hva : vec a.2 with
+  | none => simp [hva] at hra
+  | some va =>
+    cases hvb : vec b.2 with
+    | none => simp [hva, hvb] at hra
+    | some vb =>
+      simp only [hva, hvb, beq_iff_eq] at hra
+      exact ⟨va, vb, rfl, rfl, by rw [← hra]; simpa using hab⟩
+
+/-- …and the vectors are the STORED ones: with `vec i = stored rnd (orig i)` the order is the exact
+metric to the rounded vectors (bf16 at `insert_f32`), not to what the caller handed in. -/
+theorem metric_search_ordered_stored (mt : Metric) (rnd : Int → Int) (q : Vec) (orig : Nat → Option Vec) (m : NodeMap)
+    (entry : Nat × Nat) (dist : Nat → Option Nat) (k efSearch : Nat) (res : List Ent)
+    (hr : respects mt q (fun i => (orig i).map (stored rnd)) dist (keys m) = true)
+    (h : searchF32 m entry dist k efSearch true true = .ok res) :
+    res.Pairwise (fun a b => ∃ oa ob, orig a.2 = some oa ∧ orig b.2 = some ob ∧
+      closer mt q (stored rnd oa) (stored rnd ob) = true) := by
+  have := (metric_search_ordered mt q _ m entry dist k efSearch true true res hr h).2.2.2
+  refine this.imp ?_
+  rintro a b ⟨va, vb, ha, hb, hc⟩
+  cases hoa : orig a.2 with
+  | none => simp [hoa] at ha
+  | some oa =>
+    cases hob : orig b.2 with
+    | none => simp [hob] at hb
+    | some ob =>
+      simp only [hoa, hob, Option.map_some, Option.some.injEq] at ha hb
+      exact ⟨oa, ob, rfl, rfl, by rw [ha, hb]; exact hc⟩
+
+/-- non-vacuity for all four metrics on the example graph (vectors in the plane, query (0, 0) resp. (1, 0)) -/
+def exVec : Nat → Option Vec
+  | 1 => some [5, 5] | 2 => some [4, 0] | 3 => some [2, 0] | 4 => some [3, 0] | 5 => some [0, 2] | _ => none
+
+example : respects .euclidean [0, 0] exVec
+    (fun i => match i with | 1 => some 50 | 2 => some 16 | 3 => some 4 | 4 => some 9 | 5 => some 4 | _ => none)
+    (keys exGraph) = true := by decide
+example : respects .manhattan [0, 0] exVec
+    (fun i => match i with | 1 => some 10 | 2 => some 4 | 3 => some 2 | 4 => some 3 | 5 => some 2 | _ => none)
+    (keys exGraph) = true := by decide
+example : respects .innerProduct [1, 0] exVec
+    (fun i => match i with | 1 => some 0 | 2 => some 1 | 3 => some 3 | 4 => some 2 | 5 => some 5 | _ => none)
+    (keys exGraph) = true := by decide
+example : respects .cosine [1, 0] exVec
+    (fun i => match i with | 1 => some 3 | 2 => some 0 | 3 => some 0 | 4 => some 0 | 5 => some 10 | _ => none)
+    (keys exGraph) = true := by decide
+
+/-- the rounding matters: with components rounded to multiples of 4 both `[3]` and `[5]` are stored as
+`[4]`.  For the query `[6]` the caller's `[5]` is STRICTLY nearer than `[3]`; once stored the two are
+indistinguishable — what is reported and ordered is the metric to the stored vectors. -/
+example : closer .euclidean [6] [5] [3] = true ∧ closer .euclidean [6] [3] [5] = false ∧
+    closer .euclidean [6] (stored (fun x => (x + 2) / 4 * 4) [3]) (stored (fun x => (x + 2) / 4 * 4) [5]) = true ∧
+    closer .euclidean [6] (stored (fun x => (x + 2) / 4 * 4) [5]) (stored (fun x => (x + 2) / 4 * 4) [3]) = true := by decide
+
 /-! ## remove -/
 
 /-- After `remove id` the id is not a key of the node map — hence, by soundness, no later search
@@ -150,6 +297,122 @@ theorem live_entry_never_notfound (s : Index) (h : EntryOk s) (dist : Nat → Op
     · split
       · simp
       · exact searchTry_no_notFound h x _
+
+/-! ## HnswSpec — the index as an id set (interface for the collection-level model, C02) -/
+
+/-- the live-id bitmap and the node map hold the same ids -/
+def IdsSync (s : Index) : Prop := ∀ i, i ∈ s.ids ↔ i ∈ keys s.nodes
+
+/-- `insert`, seen from outside: refused without effect when the vector is invalid (dimension / non-finite,
+checked FIRST) or the id is present (checked second); otherwise the id is added at the front of the id set. -/
+theorem hnsw_spec_insert (s : Index) (hs : IdsSync s) (id : Nat) (node : Node) (edits : List (Nat × Node))
+    (pick : Nat × Nat) (valid : Bool) :
+    (insertAbs s id node edits pick valid).2 = (valid && !s.ids.contains id) ∧
+    ((insertAbs s id node edits pick valid).2 = false → (insertAbs s id node edits pick valid).1 = s) ∧
+    ((insertAbs s id node edits pick valid).2 = true → (insertAbs s id node edits pick valid).1.ids = id :: s.ids) ∧
+    IdsSync (insertAbs s id node edits pick valid).1 := by
+  have hc : s.ids.contains id = (getNode s.nodes id).isSome := by
+    have h1 := hs id
+    have h2 : (getNode s.nodes id).isSome = true ↔ id ∈ keys s.nodes := getNode_isSome_iff
+    cases hA : s.ids.contains id <;> cases hB : (getNode s.nodes id).isSome <;> simp_all
+  have hsync := fun (h : (insertAbs s id node edits pick valid).1 = s) => h ▸ hs
+  rcases insertAbs_cover s id node edits pick valid with heq | ⟨hver, _, _, _, hget, _⟩
+  · -- refused
+    have hflag : (insertAbs s id node edits pick valid).2 = false ∨ (insertAbs s id node edits pick valid).1.version = s.version + 1 := by
+      unfold insertAbs
+      split
+      · left; rfl
+      · split
+        · left; rfl
+        · right; split <;> rfl
+    rcases hflag with hf | hv
+    · refine ⟨?_, fun _ => heq, fun h => by rw [hf] at h; simp at h, hsync heq⟩
+      rw [hf]
+      unfold insertAbs at hf
+      split at hf
+      · rename_i hv; simp at hv; simp [hv]
+      · split at hf
+        · rename_i hex; rw [hc, hex]; simp
+        · split at hf <;> simp at hf
+    · exfalso; rw [heq] at hv; omega
+  · have hnew : valid = true ∧ (getNode s.nodes id).isSome = false ∧ (insertAbs s id node edits pick valid).2 = true ∧
+        (insertAbs s id node edits pick valid).1.ids = setInsert s.ids id := by
+      unfold insertAbs at hver ⊢
+      split
+      · rename_i hval; simp [hval] at hver <;> omega
+      · rename_i hval
+        split
+        · rename_i hex; simp [hval, hex] at hver <;> omega
+        · rename_i hex
+          refine ⟨by simpa using hval, by simpa using hex, ?_, ?_⟩
+          · split <;> rfl
+          · split <;> rfl
+    obtain ⟨hv, hex, hflag, hids⟩ := hnew
+    have hnc : s.ids.contains id = false := by rw [hc, hex]
+    have hids' : (insertAbs s id node edits pick valid).1.ids = id :: s.ids := by
+      have hni : id ∉ s.ids := by simpa using hnc
+      rw [hids]; simp [setInsert, hni]
+    refine ⟨by rw [hflag, hv, hnc]; rfl, fun h => by rw [hflag] at h; simp at h, fun _ => hids', ?_⟩
+    intro i
+    rw [hids', ← getNode_isSome_iff, hget]
+    by_cases hi : id = i
+    · simp [hi]
+    · have h1 := hs i
+      have h2 : (getNode s.nodes i).isSome = true ↔ i ∈ keys s.nodes := getNode_isSome_iff
+      simp only [List.mem_cons, hi, if_false, Option.isSome_map]
+      constructor
+      · rintro (h | h)
+        · exact absurd h.symm hi
+        · exact h2.mpr (h1.mp h)
+      · intro h; exact Or.inr (h1.mpr (h2.mp h))
+
+/-- `remove`, seen from outside -/
+theorem hnsw_spec_remove (s : Index) (hs : IdsSync s) (id : Nat) (pick : Nat × Nat)
+    (relink : Nat → Nat → List Nat → List Nat) :
+    (remove s id pick relink).2 = s.ids.contains id ∧
+    (remove s id pick relink).1.ids = s.ids.filter (fun x => x != id) ∧
+    IdsSync (remove s id pick relink).1 := by
+  have hk := remove_keys s id pick relink
+  have hmem : ∀ i, i ∈ keys (remove s id pick relink).1.nodes ↔ i ∈ keys s.nodes ∧ i ≠ id := by
+    intro i; rw [hk]; exact mem_keys_eraseKey
+  rcases remove_fields s id pick relink with ⟨hf, heq⟩ | ⟨ht, hids, _⟩
+  · have hnot : id ∉ keys s.nodes := by
+      intro hin
+      have := (hmem id).mpr
+      rw [heq] at hmem
+      have h2 := (hmem id).mp hin
+      exact h2.2 rfl
+    have hni : id ∉ s.ids := fun h => hnot ((hs id).mp h)
+    refine ⟨by rw [hf]; simpa using hni, ?_, by rw [heq]; exact hs⟩
+    rw [heq]
+    symm
+    rw [List.filter_eq_self]
+    intro x hx
+    have : x ≠ id := fun e => hni (e ▸ hx)
+    simpa using this
+  · have hin : id ∈ s.ids := by
+      -- `remove` returned true only because the node was there
+      have : (getNode s.nodes id).isSome = true := by
+        cases hg : getNode s.nodes id with
+        | none => unfold remove at ht; rw [hg] at ht; simp at ht
+        | some n => rfl
+      exact (hs id).mpr (getNode_isSome_iff.mp this)
+    refine ⟨by rw [ht]; simpa using hin, hids, ?_⟩
+    intro i
+    rw [hids, hmem i, List.mem_filter, hs i]
+    simp
+
+/-- a search only returns members of the id set -/
+theorem hnsw_spec_search (s : Index) (hs : IdsSync s) (dist : Nat → Option Nat) (k efSearch : Nat) (finite dimOk : Bool)
+    (res : List Ent) (h : searchF32 s.nodes s.entry dist k efSearch finite dimOk = .ok res) :
+    res.length ≤ k ∧ (res.map (·.2)).Nodup ∧ ∀ e ∈ res, e.2 ∈ s.ids := by
+  have hsd := search_sound _ _ _ _ _ _ _ _ h
+  exact ⟨hsd.len, hsd.nodup, fun e he => (hs e.2).mpr (hsd.live e he)⟩
+
+/-- `IdsSync` holds after every `load_all` -/
+theorem hnsw_spec_load (D : Durable) (pick : Nat × Nat) (s : Index) (h : load D pick = .ok s) : IdsSync s := by
+  intro i
+  rw [(load_inv h).dom_eq]
 
 /-! ## flush / crash / load -/
 
